@@ -591,6 +591,9 @@ func (e *Exec) stub(fn *ssa.Function, full string, args []Value) (Value, bool) {
 	if r, ok := e.pureStrings(full, args); ok {
 		return r, true
 	}
+	if r, ok := e.binaryStub(full, args); ok {
+		return r, true
+	}
 	switch full {
 	case "log.Printf", "(*log.Logger).Printf", "log.Println", "log.Print":
 		e.events = append(e.events, Event{Kind: "warn"})
@@ -1660,4 +1663,87 @@ func (e *Exec) outAt(p *Term) *Term {
 		r = e.st.Ite(in, ps[i].v, r)
 	}
 	return r
+}
+
+// binaryStub: encoding/binary's fixed-size byte-order helpers (exact).
+// (encoding/binary.littleEndian).PutUint16 / AppendUint16 / Uint16, 32 and 64
+// bit forms, both byte orders.
+func (e *Exec) binaryStub(full string, args []Value) (Value, bool) {
+	const pfx = "(encoding/binary."
+	if !strings.HasPrefix(full, pfx) {
+		return nil, false
+	}
+	rest := full[len(pfx):]
+	little := strings.HasPrefix(rest, "littleEndian).")
+	if !little && !strings.HasPrefix(rest, "bigEndian).") {
+		return nil, false
+	}
+	m := rest[strings.Index(rest, ").")+2:]
+	var kind string
+	var bits int
+	for _, k := range []string{"PutUint", "AppendUint", "Uint"} {
+		if strings.HasPrefix(m, k) {
+			kind = k
+			n, err := strconv.Atoi(m[len(k):])
+			if err != nil {
+				return nil, false
+			}
+			bits = n
+			break
+		}
+	}
+	if kind == "" || (bits != 16 && bits != 32 && bits != 64) {
+		return nil, false
+	}
+	nb := bits / 8
+	byteOf := func(v *Term, i int) *Term { // i-th byte in memory order
+		k := i
+		if !little {
+			k = nb - 1 - i
+		}
+		return e.st.Extract(8*k+7, 8*k, v)
+	}
+	// args[0] is the (empty struct) receiver
+	switch kind {
+	case "PutUint":
+		sl := args[1].(*SliceV)
+		v := args[2].(*Term)
+		e.mustHold(e.st.Cmp(OpUle, e.c64(int64(nb)), sl.len), "index out of range", "binary.PutUint")
+		bb := e.sliceBytes(sl)
+		for i := 0; i < nb; i++ {
+			bb.arr = e.st.StoreArr(bb.arr, e.st.Bin(OpAdd, sl.off, e.c64(int64(i))), byteOf(v, i))
+		}
+		return nil, true
+	case "Uint":
+		sl := args[1].(*SliceV)
+		e.mustHold(e.st.Cmp(OpUle, e.c64(int64(nb)), sl.len), "index out of range", "binary.Uint")
+		bb := e.sliceBytes(sl)
+		var r *Term
+		for i := 0; i < nb; i++ {
+			k := i
+			if little {
+				k = nb - 1 - i
+			}
+			b := e.st.Select(bb.arr, e.st.Bin(OpAdd, sl.off, e.c64(int64(k))))
+			if r == nil {
+				r = b
+			} else {
+				r = e.st.Concat(r, b)
+			}
+		}
+		return r, true
+	case "AppendUint":
+		sl := args[1].(*SliceV)
+		v := args[2].(*Term)
+		if sl.obj != nil && !(sl.len.op == OpConst && sl.len.val == 0) {
+			e.unsupported("binary.AppendUint to a non-empty slice")
+		}
+		arr := e.st.ConstArr(bytesSort, 0)
+		for i := 0; i < nb; i++ {
+			arr = e.st.StoreArr(arr, e.c64(int64(i)), byteOf(v, i))
+		}
+		o := e.newObj(&BytesV{arr: arr, n: -1}, "binary.Append")
+		return &SliceV{obj: o, off: e.c64(0), len: e.c64(int64(nb)), cap: e.c64(int64(nb))}, true
+	}
+	return nil, false
 }
